@@ -10,6 +10,7 @@ import time
 
 import xonsh.lib.lazyimps as xli
 from xonsh.built_ins import XSH
+from xonsh._verif import sched_point
 
 
 class QueueReader:
@@ -48,6 +49,7 @@ class QueueReader:
         """Reads a single chunk from the queue. This is blocking if
         the timeout is None and non-blocking otherwise.
         """
+        sched_point("readers.read_queue")
         try:
             return self.queue.get(block=True, timeout=self.timeout)
         except queue.Empty:
@@ -123,6 +125,7 @@ def populate_fd_queue(reader, fd, queue):
     If this ends or fails, it flags the calling reader object as closed.
     """
     while True:
+        sched_point("readers.populate_fd_queue.before_read")
         try:
             c = os.read(fd, 1024)
         except OSError:
@@ -131,6 +134,7 @@ def populate_fd_queue(reader, fd, queue):
         if c:
             queue.put(c)
         else:
+            sched_point("readers.populate_fd_queue.before_closed")
             reader.closed = True
             break
 
